@@ -104,6 +104,17 @@ def generate(tier, seed):
                     for st, t in _targets(g2, rich=True):
                         if st[0] in ("labelhead", "labelrel", "head"):
                             yield {"g": g2, "S": S, "t": t, "st": list(st)}
+    # deep chains: offsets with two digits need a history at least that deep (and over-long offsets must not resolve)
+    for width in (1, 3):
+        g = [{"name": "r" + str(i).zfill(width), "down": (["r" + str(i - 1).zfill(width)] if i else []), "deps": [], "labels": (["lab0"] if i == 0 else [])}
+             for i in range(13)]
+        names = [r["name"] for r in g]
+        for S in ([], [names[0]], [names[2]], [names[11]]):
+            for k in (1, 9, 10, 11, 12, 13, 25):
+                yield {"g": g, "S": S, "t": "+%d" % k, "st": ["relcur", k]}
+                yield {"g": g, "S": S, "t": "%s+%d" % (names[0], k), "st": ["relid", names[0], k]}
+                yield {"g": g, "S": S, "t": "%s+%d" % (names[1], k), "st": ["relid", names[1], k]}
+                yield {"g": g, "S": S, "t": "lab0@+%d" % k, "st": ["labelrel", "lab0", k]}
     nrand = 250 if tier == "quick" else 10000
     for k in range(nrand):
         g = gr.rand_dag(rnd, rnd.randint(5, 10), pdep=rnd.choice([0.2, 0.4]), pmerge=rnd.choice([0.2, 0.5]),
